@@ -12,6 +12,7 @@ import (
 	"regexp"
 	"strings"
 
+	"github.com/monshunter/goat/pkg/verifhook"
 	"golang.org/x/tools/go/ast/astutil"
 )
 
@@ -261,6 +262,7 @@ func FormatAndSave(filename string, content []byte, cfg *printer.Config) error {
 	if err != nil {
 		return fmt.Errorf("failed to get file info: %v, file: %s", err, filename)
 	}
+	verifhook.Boundary("write", filename)
 	err = os.WriteFile(filename, contentBytes, info.Mode().Perm())
 	if err != nil {
 		return fmt.Errorf("failed to write file: %v, file: %s", err, filename)
